@@ -6,7 +6,8 @@ ID = "C01"
 DESIGN_REF = "3/C01"
 RULE = (
     "Hypothesis-generated label multisets (1-6 clusters, ties, halves, floats, up to 70 labels quick / 200 thorough) x engine "
-    "configuration (bounds absent/feasible/infeasible, spacing, density, stub width, algorithm). Every layer of every layout is "
+    "configuration (bounds absent/feasible/infeasible, label spacing, configured line spacing, density, stub width, algorithm; reaching the engine "
+    "through the constructor, set_options(), both, or as a reconfiguration followed by a second compute()). Every layer of every layout is "
     "judged: items ordered by (target, position) must keep target order and every pair i<j must be at least the sum of the "
     "adjacent required gaps between them apart, less 1 for rounding. A layout is non-trivial when some layer holds two items "
     "whose targets are closer than their required gap (the solver had to act); distinct = distinct spec hash."
